@@ -1,4 +1,6 @@
 SPECIFICATION Spec
 INVARIANT WellFormed
 INVARIANT Covers
+INVARIANT RowOrdersOk
+INVARIANT AltGridOk
 CHECK_DEADLOCK FALSE
